@@ -308,11 +308,24 @@ const maxHashes = 3 << 20
 
 var scratchDir string
 
+// MkdirTemp makes a scratch directory below the run's output directory (VERIF_OUT, which the driver removes when
+// the run is over, also after a worker was killed in the middle of a case) or, without one, below the system's
+// temporary directory.
+func MkdirTemp(pattern string) (string, error) {
+	base := os.Getenv("VERIF_OUT")
+	if base != "" {
+		if st, err := os.Stat(base); err != nil || !st.IsDir() {
+			base = ""
+		}
+	}
+	return os.MkdirTemp(base, pattern)
+}
+
 // Setup puts the process into the state every harness process runs in.
 func Setup() {
 	debug.SetMaxStack(64 << 20)
 	if scratchDir == "" {
-		d, err := os.MkdirTemp("", "verif-empty-")
+		d, err := MkdirTemp("verif-empty-")
 		if err == nil {
 			scratchDir = d
 			os.Chdir(d)
